@@ -190,6 +190,63 @@ theorem unstarted_run_silent (M : Machine S) (hs : ReplaySafe M) (L : List Entry
       rw [v1', List.nil_append]
       exact ih _ v2 (fun x hx => hns x (by simp [hx]))
 
+/-! ## Replay discipline -/
+
+theorem replayOK_append (M : Machine S) (X Y : List Entry) (t : S) :
+    ReplayOK M t (X ++ Y) ↔ ReplayOK M t X ∧ ReplayOK M (replayRun M t X).1 Y := by
+  induction X generalizing t with
+  | nil => simp [ReplayOK, replayRun]
+  | cons x X ih => simp [ReplayOK, replayRun, ih, and_assoc]
+
+theorem replayOK_no_timeouts (M : Machine S) (L : List Entry) (t : S)
+    (h : ∀ x ∈ L, x.isTimeout = false) : ReplayOK M t L := by
+  induction L generalizing t with
+  | nil => trivial
+  | cons e L ih =>
+    refine ⟨fun ht => ?_, ih _ (fun x hx => h x (by simp [hx]))⟩
+    rw [h e (by simp)] at ht; cases ht
+
+/-- The position at which `insertByHeight` puts `e` in a sorted list. -/
+theorem insert_split (e : Entry) (X : List Entry) (h : SortedH X) :
+    ∃ A B, X = A ++ B ∧ insertByHeight e X = A ++ e :: B ∧
+      (∀ a ∈ A, a.height ≤ e.height) ∧ (∀ b ∈ B, e.height < b.height) := by
+  induction X with
+  | nil => exact ⟨[], [], rfl, rfl, by simp, by simp⟩
+  | cons x xs ih =>
+    obtain ⟨h1, h2⟩ := h
+    by_cases hle : x.height ≤ e.height
+    · obtain ⟨A, B, hx, hi, hA, hB⟩ := ih h2
+      refine ⟨x :: A, B, by rw [hx]; rfl, by simp [insertByHeight, hle, hi], ?_, hB⟩
+      intro a ha
+      simp only [List.mem_cons] at ha
+      rcases ha with rfl | ha
+      · exact hle
+      · exact hA a ha
+    · refine ⟨[], x :: xs, rfl, by simp [insertByHeight, hle], by simp, ?_⟩
+      intro b hb
+      simp only [List.mem_cons] at hb
+      rcases hb with rfl | hb
+      · omega
+      · have := h1 b hb; omega
+
+/-- A block of future-height, non-`Start` entries changes neither the height nor `started`. -/
+theorem futures_keep (M : Machine S) (hs : ReplaySafe M) (B : List Entry) (t : S)
+    (hB : ∀ b ∈ B, M.height t < b.height ∧ b.toInput ≠ Input.start) :
+    M.started (replayRun M t B).1 = M.started t ∧ M.height (replayRun M t B).1 = M.height t := by
+  induction B generalizing t with
+  | nil => exact ⟨rfl, rfl⟩
+  | cons b B ih =>
+    obtain ⟨hlt, hns⟩ := hB b (by simp)
+    have hnst : replayStep M t b = M.step t b.toInput :=
+      replayStep_of_not_stale M t b (by omega)
+    obtain ⟨f1, f2⟩ := hs.future_silent t b hlt hns
+    have hh : M.height (replayStep M t b).1 = M.height t :=
+      replayStep_silent_height M hs t b (by rw [hnst]; exact f1)
+    have := ih (replayStep M t b).1 (fun y hy => by rw [hh]; exact hB y (by simp [hy]))
+    simp only [replayRun]
+    rw [this.1, this.2, hh, hnst, f2]
+    exact ⟨rfl, rfl⟩
+
 /-! ## The invariant of a live run -/
 
 /-- `s` is at height `b + 1`; it is the state a fresh machine for `b + 1` reaches on the sorted
@@ -198,9 +255,21 @@ trace so far is for a height `≤ b + 1`, and the ones for `b + 1` are re-emitte
 structure LiveInv (M : Machine S) (s : S) (E : List Entry) (b : Nat) (tr : List Effect) : Prop where
   height : M.height s = b + 1
   state : s = (replayRun M (M.init (b + 1)) (sortByHeight (above b E))).1
-  futns : ∀ x ∈ E, b + 1 < x.height → x.toInput ≠ Input.start
+  futns : ∀ x ∈ E, b + 1 < x.height → x.toInput ≠ Input.start ∧ x.isTimeout = false
   votes : ∀ v ∈ votesOf tr, v.h ≤ b + 1 ∧
     (v.h = b + 1 → v ∈ votesOf (replayRun M (M.init (b + 1)) (sortByHeight (above b E))).2)
+  rok : ReplayOK M (M.init (b + 1)) (sortByHeight (above b E))
+
+/-- The part of the invariant that also holds for the base BEFORE a commit, right after the
+committing step (the machine is already one height further, the chain is not). -/
+structure LiveInvW (M : Machine S) (s : S) (E : List Entry) (b : Nat) (tr : List Effect) : Prop where
+  state : s = (replayRun M (M.init (b + 1)) (sortByHeight (above b E))).1
+  votes : ∀ v ∈ votesOf tr, v.h ≤ b + 1 ∧
+    (v.h = b + 1 → v ∈ votesOf (replayRun M (M.init (b + 1)) (sortByHeight (above b E))).2)
+  rok : ReplayOK M (M.init (b + 1)) (sortByHeight (above b E))
+
+theorem LiveInv.toW {M : Machine S} {s : S} {E : List Entry} {b : Nat} {tr : List Effect}
+    (h : LiveInv M s E b tr) : LiveInvW M s E b tr := ⟨h.state, h.votes, h.rok⟩
 
 theorem votesOf_append (a b : List Effect) : votesOf (a ++ b) = votesOf a ++ votesOf b := by
   simp [votesOf]
@@ -222,10 +291,11 @@ theorem above_above (b c : Nat) (E : List Entry) (h : b ≤ c) : above c (above 
 /-- One logged (not ignored) live input preserves the invariant; `b'` is the new base. -/
 theorem liveInv_step (M : Machine S) (hs : ReplaySafe M) (s : S) (E : List Entry) (b : Nat)
     (tr : List Effect) (inv : LiveInv M s E b tr) (i : Input) (e : Entry) (ar : List Action)
+    (hst : M.started s = true ∨ i = Input.start)
     (h2 : (M.step s i).2 = Action.writeWAL e :: ar) (hi : e.toInput = i)
     (hh : M.height s ≤ e.height) (hstart : i = Input.start → e.height = M.height s) :
-    -- the replay from the OLD base reproduces the new state (also when the input commits)
-    (M.step s i).1 = (replayRun M (M.init (b + 1)) (sortByHeight (above b (E ++ [e])))).1 ∧
+    -- the replay from the OLD base reproduces the new state and votes (also when the input commits)
+    LiveInvW M (M.step s i).1 (E ++ [e]) b (tr ++ effectsOf false (M.step s i).2) ∧
     LiveInv M (M.step s i).1 (E ++ [e]) (M.height (M.step s i).1 - 1)
       (tr ++ effectsOf false (M.step s i).2) := by
   have hb : b < e.height := by have := inv.height; omega
@@ -240,7 +310,7 @@ theorem liveInv_step (M : Machine S) (hs : ReplaySafe M) (s : S) (E : List Entry
     exact (List.mem_filter.1 ((mem_sort x _).1 hx)).1
   have hins := insert_equiv M hs e (sortByHeight (above b E)) (M.init (b + 1)) (sorted_sort _)
     (by rw [← inv.state]; exact hh)
-    (fun x hx hlt => inv.futns x (hmemE x hx) (by have := inv.height; omega))
+    (fun x hx hlt => (inv.futns x (hmemE x hx) (by have := inv.height; omega)).1)
   have hrun : replayRun M (M.init (b + 1)) (sortByHeight (above b E) ++ [e]) =
       ((M.step s i).1, (replayRun M (M.init (b + 1)) (sortByHeight (above b E))).2 ++
         effectsOf true (M.step s i).2) := by
@@ -253,12 +323,65 @@ theorem liveInv_step (M : Machine S) (hs : ReplaySafe M) (s : S) (E : List Entry
       visibleOf (replayRun M (M.init (b + 1)) (sortByHeight (above b E))).2 ++
         visibleOf (effectsOf true (M.step s i).2) := by
     rw [hsortE, hins.2, hrun, visibleOf_append]
-  refine ⟨hstate0, ?_⟩
   -- votes of this step are for the current height
   have hnewvotes : ∀ v ∈ votesOf (effectsOf false (M.step s i).2), v.h = b + 1 := by
     intro v hv
     rw [votes_effectsOf_mode] at hv
     rw [hs.votes_current_height s i v hv, inv.height]
+  have hetm : e.isTimeout = true → e.height = M.height s :=
+    fun ht => hs.timeout_entry_current s i e ar h2 ht
+  have hefut : M.height s < e.height → e.toInput ≠ Input.start ∧ e.isTimeout = false := by
+    intro hlt
+    refine ⟨hens hlt, ?_⟩
+    cases htm : e.isTimeout
+    · rfl
+    · have := hetm htm; omega
+  have hrok0 : ReplayOK M (M.init (b + 1)) (sortByHeight (above b (E ++ [e]))) := by
+    rw [hsortE]
+    obtain ⟨A, B, hX, hI, hA, hB⟩ := insert_split e (sortByHeight (above b E)) (sorted_sort _)
+    rw [hI]
+    have hrokX := inv.rok
+    rw [hX] at hrokX
+    obtain ⟨rA, _⟩ := (replayOK_append M A B _).1 hrokX
+    have hBfut : ∀ x ∈ B, x.toInput ≠ Input.start ∧ x.isTimeout = false := by
+      intro x hx
+      have hxE := hmemE x (by rw [hX]; simp [hx])
+      exact inv.futns x hxE (by have := hB x hx; have := inv.height; omega)
+    refine (replayOK_append M A (e :: B) _).2 ⟨rA, ?_, replayOK_no_timeouts M B _ (fun x hx => (hBfut x hx).2)⟩
+    intro htm _
+    -- a timeout is for the current height and was delivered to a started machine; the block `B`
+    -- of future-height messages processed in between does not change `started`
+    have hsA : s = (replayRun M (replayRun M (M.init (b + 1)) A).1 B).1 := by
+      have := inv.state
+      rw [hX, replayRun_append] at this
+      exact this
+    have htAle : M.height (replayRun M (M.init (b + 1)) A).1 ≤ b + 1 := by
+      have := replayRun_height_mono M hs B (replayRun M (M.init (b + 1)) A).1
+      rw [← hsA, inv.height] at this
+      exact this
+    have hk := futures_keep M hs B (replayRun M (M.init (b + 1)) A).1 (fun x hx =>
+      ⟨by have := hB x hx; have := inv.height; omega, (hBfut x hx).1⟩)
+    rw [← hsA] at hk
+    rw [← hk.1]
+    rcases hst with h | h
+    · exact h
+    · rw [← hi] at h
+      cases e <;> simp [Entry.isTimeout] at htm <;> simp [Entry.toInput] at h
+  have hW : LiveInvW M (M.step s i).1 (E ++ [e]) b (tr ++ effectsOf false (M.step s i).2) := by
+    refine ⟨hstate0, ?_, hrok0⟩
+    intro v hv
+    have hvotes0 := votesOf_visibleOf_eq (hvis0.trans (visibleOf_append _ _).symm)
+    rw [votesOf_append] at hvotes0
+    rw [votesOf_append, List.mem_append] at hv
+    rcases hv with hv | hv
+    · refine ⟨(inv.votes v hv).1, fun h => ?_⟩
+      rw [hvotes0, List.mem_append]
+      exact Or.inl ((inv.votes v hv).2 h)
+    · refine ⟨by rw [hnewvotes v hv]; omega, fun _ => ?_⟩
+      rw [hvotes0, List.mem_append]
+      rw [votes_effectsOf_mode] at hv
+      exact Or.inr hv
+  refine ⟨hW, ?_⟩
   by_cases hc : committed (M.step s i).2 = true
   · -- the input commits height b + 1
     obtain ⟨pre, h, v, post, hsplit, hpre⟩ : ∃ pre h v post,
@@ -279,7 +402,7 @@ theorem liveInv_step (M : Machine S) (hs : ReplaySafe M) (s : S) (E : List Entry
     -- `e` is of the current height (a future-height input is silent)
     have heq : e.height = b + 1 := by
       by_cases hlt : M.height s < e.height
-      · have hsil := hs.future_silent s e hlt (hens hlt)
+      · have hsil := (hs.future_silent s e hlt (hens hlt)).1
         rw [hi] at hsil
         rw [visA_nil_not_committed _ hsil] at hc
         cases hc
@@ -323,7 +446,7 @@ theorem liveInv_step (M : Machine S) (hs : ReplaySafe M) (s : S) (E : List Entry
       have hxE := (List.mem_filter.1 hx').1
       have hxh := (List.mem_filter.1 hx').2
       simp at hxh
-      exact ⟨by omega, inv.futns x hxE hxh⟩
+      exact ⟨by omega, (inv.futns x hxE hxh).1⟩
     have htA : M.height tA ≤ e.height := by
       have := replayRun_height_mono M hs Fut tA
       rw [← hsA, inv.height] at this
@@ -347,7 +470,17 @@ theorem liveInv_step (M : Machine S) (hs : ReplaySafe M) (s : S) (E : List Entry
       rw [hreset]
     have hbase : M.height (M.step s i).1 - 1 = b + 1 := by omega
     rw [hbase]
-    refine ⟨hnewh, hstate1, ?_, ?_⟩
+    refine ⟨hnewh, hstate1, ?_, ?_, ?_⟩
+    rotate_left 2
+    · refine replayOK_no_timeouts M _ _ (fun x hx => ?_)
+      have hx' := (mem_sort x _).1 hx
+      have hxE := (List.mem_filter.1 hx').1
+      have hxh := (List.mem_filter.1 hx').2
+      simp at hxh
+      simp only [List.mem_append, List.mem_singleton] at hxE
+      rcases hxE with hxE | rfl
+      · exact (inv.futns x hxE hxh).2
+      · omega
     · intro x hx hlt
       simp only [List.mem_append, List.mem_singleton] at hx
       rcases hx with hx | rfl
@@ -367,23 +500,11 @@ theorem liveInv_step (M : Machine S) (hs : ReplaySafe M) (s : S) (E : List Entry
       rw [hs.no_commit_height s i hc', inv.height]
     have hbase : M.height (M.step s i).1 - 1 = b := by omega
     rw [hbase]
-    refine ⟨hnewh, hstate0, ?_, ?_⟩
-    · intro x hx hlt
-      simp only [List.mem_append, List.mem_singleton] at hx
-      rcases hx with hx | rfl
-      · exact inv.futns x hx hlt
-      · exact hens (by have := inv.height; omega)
-    · intro v hv
-      have hvotes0 := votesOf_visibleOf_eq (hvis0.trans (visibleOf_append _ _).symm)
-      rw [votesOf_append] at hvotes0
-      rw [votesOf_append, List.mem_append] at hv
-      rcases hv with hv | hv
-      · refine ⟨(inv.votes v hv).1, fun h => ?_⟩
-        rw [hvotes0, List.mem_append]
-        exact Or.inl ((inv.votes v hv).2 h)
-      · refine ⟨by rw [hnewvotes v hv]; omega, fun _ => ?_⟩
-        rw [hvotes0, List.mem_append]
-        rw [votes_effectsOf_mode] at hv
-        exact Or.inr hv
+    refine ⟨hnewh, hstate0, ?_, hW.votes, hrok0⟩
+    intro x hx hlt
+    simp only [List.mem_append, List.mem_singleton] at hx
+    rcases hx with hx | rfl
+    · exact inv.futns x hx hlt
+    · exact hefut (by have := inv.height; omega)
 
 end Juno.C13
